@@ -91,6 +91,7 @@ type TSAOpts struct {
 	NonCritical  bool               // EKU extension not marked critical
 	LeafKeyUsage x509.KeyUsage      // default DigitalSignature
 	Root         *common.Cert       // reuse an existing root
+	CRLURLs      []string           // CRL distribution points of the signing certificate
 }
 
 // NewTSA mints root -> TSA signing certificate.
@@ -105,7 +106,7 @@ func NewTSA(o TSAOpts) *TSA {
 		eku = []x509.ExtKeyUsage{x509.ExtKeyUsageTimeStamping}
 	}
 	leaf := common.MakeCert(common.CertOpts{Subject: common.Name("tsa signer " + o.Tag), Parent: root, EKU: eku,
-		CriticalEKU: !o.NonCritical, KeyUsage: o.LeafKeyUsage, NotBefore: o.NotBefore, NotAfter: o.NotAfter})
+		CriticalEKU: !o.NonCritical, KeyUsage: o.LeafKeyUsage, CRLURLs: o.CRLURLs, NotBefore: o.NotBefore, NotAfter: o.NotAfter})
 	return &TSA{Root: root, Leaf: leaf}
 }
 
